@@ -32,6 +32,10 @@ class HistoryRun:
                       "step_between_ops": False, "max_rounds": 0}
         self._seen_op = False
         self._step_since_op = False
+        self.win_kinds = [set(), set()]     # op kinds per side since the last quiet point
+        self.gadgets = []
+        self.stats["two_sided_windows"] = 0
+        self.stats["two_sided_destructive_windows"] = 0
 
     # ---- hooks
     def before_step(self, who):
@@ -48,6 +52,26 @@ class HistoryRun:
 
     def special(self, act):
         raise InvalidTrace("unknown action %r" % (act,))
+
+    def do_gadget(self, g):
+        """Pure conflict gadget: first op, event-intake steps only, second op (no sync step in between)."""
+        ops = g["ops"]
+        rec = {"shape": g["shape"], "ops": ops, "step_at": self.case.step_no, "calls_at": len(self.case.calls)}
+        self.exp = None       # the merged outcome on gadget paths is not modelled: no equals_expected after a gadget
+        for i, (sd, op, *args) in enumerate(ops):
+            self.case.user(sd, op, *args)
+            self.stats["user_ops"] += 1
+            self.stats["sides"].add(sd)
+            self.stats["kinds"].add(op)
+            self.win_kinds[sd].add(op)
+            if i == 0:
+                for who in g.get("mid", []):
+                    if who not in ("EL", "ER"):
+                        raise InvalidTrace("only event-intake steps inside a gadget")
+                    self.do_step(who)
+        self.gadgets.append(rec)
+        self._seen_op = True
+        self._step_since_op = False
 
     # ---- execution
     def do_step(self, who):
@@ -73,6 +97,11 @@ class HistoryRun:
             raise Stop(violation("stall", "engine not quiet after %d rounds; changeset=%s" % (
                 SETTLE_ROUNDS, [str(e) for e in self.case.cs.state.changes][:4])))
         self.stats["max_rounds"] = max(self.stats["max_rounds"], rounds)
+        if self.win_kinds[0] and self.win_kinds[1]:
+            self.stats["two_sided_windows"] += 1
+            if (self.win_kinds[0] | self.win_kinds[1]) & {"delete", "rename", "rmtree"}:
+                self.stats["two_sided_destructive_windows"] += 1
+        self.win_kinds = [set(), set()]
         self.at_quiet(rounds, final)
         return rounds
 
@@ -88,6 +117,7 @@ class HistoryRun:
         st["user_ops"] += 1
         st["sides"].add(side)
         st["kinds"].add(op)
+        self.win_kinds[side].add(op)
         if self._seen_op and self._step_since_op:
             st["step_between_ops"] = True
         self._seen_op = True
@@ -108,6 +138,8 @@ class HistoryRun:
                     self.do_step(a[1])
                 elif k == "settle":
                     self.do_settle(final=(i == last_settle))
+                elif k == "gadget":
+                    self.do_gadget(a[1])
                 else:
                     self.special(a)
             out = self.finish()
